@@ -38,6 +38,9 @@ var c06Classes = []c06Class{
 	{name: "datasize-negative", args: []int64{0, 1000}, fileLevel: true, strict: true},
 	{name: "rawsize-plus", fileLevel: true, strict: true, zlib: true},
 	{name: "rawsize-minus", fileLevel: true, strict: true, zlib: true},
+	// declared sizes far from the data: zero, negative, around the point where size+10%
+	// leaves int32, and the int32 maximum
+	{name: "rawsize-abs", args: []int64{0, -1, -(1 << 31), 1 << 24, 1952257000, 1952258000, 2000000000, 2147483047, 1<<31 - 1}, fileLevel: true, strict: true, zlib: true},
 	{name: "corrupt-zlib", fileLevel: true, strict: true, zlib: true},
 	{name: "bad-adler", fileLevel: true, strict: true, zlib: true},
 	{name: "zlib-truncated", fileLevel: true, strict: true, zlib: true},
